@@ -16,7 +16,7 @@ import (
 
 // The slots of a round: one shared *font.Font per slot ("collection" shares two
 // faces of one file).
-var slotKinds = []string{"glyf", "cff", "cff2", "var", "aat-morx", "aat-kerx", "kern", "bitmap", "sbix", "sbix-dupe", "svg", "ot-layout", "collection"}
+var slotKinds = []string{"glyf", "cff", "cff2", "var", "aat-morx", "aat-kerx", "kern", "bitmap", "sbix", "sbix-dupe", "svg", "ot-layout", "collection", "aat-trak", "indic-context3"}
 
 // fonts are re-parsed every round; keep that cheap. The kinds with very few
 // small representatives may use larger files.
@@ -95,6 +95,12 @@ func classify() map[string][]faceID {
 			if has("SVG ") {
 				add("svg")
 			}
+			if has("trak") {
+				add("aat-trak")
+			}
+			if f.ID == teluguDonor {
+				add("indic-context3")
+			}
 			if has("fvar") && has("gvar") && has("glyf") {
 				add("var")
 			}
@@ -111,6 +117,13 @@ func classify() map[string][]faceID {
 	}
 	if _, err := synthSbix(); err == nil {
 		out["sbix-dupe"] = []faceID{{synthSbixDupes, 0}}
+	}
+	if _, err := synthPatched(synthTrakNoSizes); err == nil {
+		// listed three times: a third or more of the rounds take it
+		out["aat-trak"] = append(out["aat-trak"], faceID{synthTrakNoSizes, 0}, faceID{synthTrakNoSizes, 0}, faceID{synthTrakNoSizes, 0})
+	}
+	if _, err := synthPatched(synthTeluguCtx3); err == nil {
+		out["indic-context3"] = append(out["indic-context3"], faceID{synthTeluguCtx3, 0}, faceID{synthTeluguCtx3, 0})
 	}
 	for _, l := range out {
 		sort.Slice(l, func(i, j int) bool {
@@ -175,6 +188,8 @@ type scout struct {
 	// private parse. One slice per font: the goroutines of a round hand this very slice to
 	// Face.SetCoords (an application that normalizes once and configures all its faces).
 	MidCoords []font.VarCoord
+	// Phrases: texts known to reach a rarely taken path of the shaper with this font
+	Phrases [][]rune
 }
 
 var scoutCache = map[string]*scout{}
@@ -261,6 +276,10 @@ func getScout(id faceID) *scout {
 			}
 		}
 		s.Family = ft.Describe().Family
+		if id.File == synthTeluguCtx3 || id.File == teluguDonor {
+			s.Phrases = teluguPhrases
+			s.Runes = append(s.Runes, teluguUnsupported)
+		}
 		if len(s.Axes) > 0 {
 			design := make([]float32, len(s.Axes))
 			for i, a := range s.Axes {
